@@ -196,7 +196,7 @@ theorem real_reloads_safe : reloadsSafe L = true := by decide
 theorem real_tight : tight L = true := by decide
 theorem real_extractor_checks :
     allConfTokensClassified = true ∧ reloadIsCloseStoreCreate = true ∧ coreLogUsesLogger = true ∧
-    staticsAssignedOnlyInitially = true := by decide
+    staticsAssignedOnlyInitially = true ∧ confStoredOnlyByReload = true := by decide
 /-- every component is closed before the components it points to -/
 theorem real_close_order :
     (L.all fun r => r.refs.all fun c =>
